@@ -26,6 +26,12 @@ EXTRA = [
     _c("COUNTclose", "Counter", input_value="close", count_value=9),
     _c("MACD32swapped", "MACD", fast_period=3, slow_period=2, signal_period=2, name_suffix="sw"),
     _c("HMA2_", "HMA", period=2, name_suffix="p2"),
+    _c("ROC2vol", "ROC", period=2, input_value="volume"),
+    _c("EMA2vol", "EMA", period=2, input_value="volume", name_suffix="v"),
+    _c("RSI2vol", "RSI", period=2, input_value="volume", name_suffix="v"),
+    _c("TSI2vol", "TSI", period=2, input_value="volume", name_suffix="v"),
+    _c("STDEV2vol", "STDEV", period=2, input_value="volume", name_suffix="v"),
+    _c("MACDvol", "MACD", fast_period=2, slow_period=3, signal_period=2, input_value="volume", name_suffix="v"),
     _c("HMA3_", "HMA", period=3, name_suffix="p3"),
 ]
 for _x in EXTRA:
